@@ -317,7 +317,7 @@ PROPS = {
     ),
     "C16": dict(
         variants={"native": ["galois_shmem"], "sched": ["galois_shmem"]},
-        units=[dict(type="rc", harness="c16", quick=80000, thorough=1200000, workers=8),
+        units=[dict(type="rc", harness="c16", quick=50000, thorough=750000, workers=8),
                dict(type="rc", harness="c16e1", quick=16000, thorough=240000)],
         engine="rapidcheck (in-process, real threads) + gsched",
         technique="property-based testing: rapidcheck-generated sequences (sizes around the 1024 serial cut-off and block multiples, patterns, predicates, 1..16 threads); differential oracle against std:: algorithms; validity predicates for partition (point + permutation) and find_if (any match)",
@@ -370,7 +370,7 @@ PROPS = {
     "C19": dict(
         variants={"native": ["galois_shmem", "galois_dist_async", "galois_gluon", "distbench"]},
         extra_harnesses=["dharness"],
-        units=[dict(type="hyp", harness="py:c19", quick=120, thorough=1800, workers=6)],
+        units=[dict(type="hyp", harness="py:c19", quick=300, thorough=4500, workers=6)],
         engine="hypothesis over MPI subprocesses",
         technique="property-based testing: Hypothesis-generated graphs (isolated nodes, skew, fewer nodes than hosts, up to 300 nodes), host counts 1..4, all 11 partition policies, CSR and CSC variants; a distributed harness built like a lonestar app is run under mpirun and every host's dump (local edges, id maps, master/mirror lists, thread ranges) is checked against the input",
         rule=("cases = (graph, hosts in 1..4, policy in oec|iec|hovc|hivc|cvc|cvc-iec|ginger-o|ginger-i|fennel-o|fennel-i|sugar-o, CSR or CSC "
@@ -387,7 +387,7 @@ PROPS = {
         variants={"native": ["bfs-cpu", "sssp-cpu", "connected-components-cpu", "minimum-spanningtree-cpu", "triangle-counting-cpu",
                              "k-core-cpu", "pagerank-pull-cpu", "pagerank-push-cpu", "maximal-independentset-cpu", "preflowpush-cpu",
                              "bfs-push-dist", "bfs-pull-dist", "sssp-push-dist", "sssp-pull-dist", "connected-components-push-dist",
-                             "connected-components-pull-dist", "k-core-push-dist", "k-core-pull-dist"]},
+                             "connected-components-pull-dist", "k-core-push-dist", "k-core-pull-dist", "pagerank-push-dist", "pagerank-pull-dist"]},
         units=[dict(type="hyp", harness="py:c20", quick=1200, thorough=18000, workers=8, confirm_runs=12, env={"VERIF_SHRINK_EVALS": "40", "C20_APPS": "cpu"}),
                dict(type="hyp", harness="py:c20", quick=240, thorough=3600, workers=6, env={"VERIF_SHRINK_EVALS": "40", "C20_APPS": "dist"})],
         engine="hypothesis over subprocesses (CPU apps) and MPI (distributed apps)",
